@@ -479,6 +479,20 @@ def _bump(d, k, n=1):
     d[k] = d.get(k, 0) + n
 
 
+def _thin_cells(s):
+    meas, _ = s.meas
+    h = G.diameters(s.p, s.t, s.kind)
+    d = G.DIM[s.kind]
+    thick = meas / np.maximum(h, 1e-300) ** (d - 1) if d > 1 else meas
+    return bool(len(thick)) and float(thick.min()) < 5e-3
+
+
+# a point strictly inside the reference cell that lies on no diagonal or
+# symmetry plane (the library locates points in quadrilaterals / hexahedra
+# through a split into simplices: the cell centre sits on the cut)
+_REF_GENERIC = {"line": [0.41], "tri": [0.37, 0.21], "quad": [0.41, 0.23],
+                "tet": [0.33, 0.19, 0.11], "hex": [0.41, 0.23, 0.31],
+                "wedge": [0.37, 0.21, 0.43]}
 _REF_CENTRE = {"line": [0.5], "tri": [1 / 3, 1 / 3], "quad": [0.5, 0.5],
                "tet": [0.25, 0.25, 0.25], "hex": [0.5, 0.5, 0.5],
                "wedge": [1 / 3, 1 / 3, 0.5]}
@@ -495,16 +509,21 @@ def _library_view(m, s, probes, warm_only=False):
     X = np.array(_REF_CENTRE[s.kind])[:, None]
     mp = m.mapping()
     F = np.asarray(mp.F(X))[:, :, 0]
-    own = G.verts(s.p, s.t, s.kind).mean(axis=0)          # (dim, nt)
+    V = G.verts(s.p, s.t, s.kind)                         # (nv, dim, nt)
+    own = V.mean(axis=0)                                  # (dim, nt)
     sel = np.unique(np.linspace(0, s.nt - 1, min(s.nt, 6)).astype(int))
+    Ng, _ = G.shape(s.kind, np.array(_REF_GENERIC[s.kind])[:, None])
+    gen = np.einsum("vdn,v->dn", V[:, :, sel], Ng[:, 0])  # (dim, len(sel))
     found = None
     try:
         finder = m.element_finder()
-        found = np.asarray(finder(*[own[d, sel] for d in range(s.dim)]))
+        found = np.asarray(finder(*[gen[d] for d in range(s.dim)]))
     except NotImplementedError:
         pass
     except ValueError:
-        found = "raised"
+        # the library's search is heuristic (nearest centroids of a split
+        # into simplices); not finding a point is not judged here
+        _bump(probes, "library-finder-raised")
     if warm_only:
         return
     _bump(probes, "library-view-checked")
@@ -515,17 +534,13 @@ def _library_view(m, s, probes, warm_only=False):
                   if F.shape == own.shape else None)
     if found is None:
         return
-    # the centre of a convex cell lies strictly inside it; skip the finder
-    # verdict when own point location says it is not clear-cut (overlapping
-    # or folded cells are somebody else's finding)
-    loc = G.locate(own[:, sel], s.p, s.t, s.kind, tol=1e-7)
-    clear = [len(h) == 1 and h[0][1] > 1e-3 for h in loc]
-    if isinstance(found, str):
-        if all(clear):
-            raise Bad("valid-library-finder-fails-at-cell-centres")
-        return
+    # judged only where own point location is clear-cut (one cell, well
+    # inside): the cell the library returns must be that cell
+    loc = G.locate(gen, s.p, s.t, s.kind, tol=1e-7)
     for j, c in enumerate(sel.tolist()):
-        if clear[j] and int(found[j]) != c:
+        h = loc[j]
+        if len(h) == 1 and h[0][0] == c and h[0][1] > 1e-3 \
+                and int(found[j]) != c:
             raise Bad("valid-library-finder-returns-other-cell",
                       cell=int(c), found=int(found[j]))
 
@@ -749,6 +764,12 @@ def _step(st, o, prop, probes, faults, catcher, skm):
         return "transform:" + kind
 
     # ------------------------------------------------------------ join
+    if name in ("join", "join_mixed") and _thin_cells(s):
+        # Mesh.__add__ / __matmul__ round coordinates to 8 decimals,
+        # absolutely (documented behaviour): against cells thinner than
+        # 5e-3 that is no longer below the tolerances used here
+        _bump(probes, "op-skipped-join-of-thin-cells")
+        return "skipped-thin"
     if name == "join":
         other = _join_partner(st, o, skm)
         if other is None:
